@@ -378,6 +378,11 @@ func c15(c *fw.Ctx) {
 					if rng.Bool() {
 						text = "q" + text
 					}
+					if e.Kind == 3 && rep%5 == 0 {
+						// UTF-16BE is the one registered set that is not a superset of ASCII: plain ASCII text
+						text = fromAlphabet(rng, "abcdefghijklmnopqrstuvwxyz ,.!?0123456789", 1+rng.Intn(20))
+						r.Tally("utf16be_ascii_only_texts")
+					}
 					if !c15Hinted(r, e, name, text, "multi-byte") {
 						return
 					}
@@ -699,6 +704,66 @@ func c15(c *fw.Ctx) {
 		}
 		r.Nontrivial("decode-hint")
 	})
+	// the same through whole symbols, upright and mirrored (the decoder retries a symbol that
+	// does not decode as its transpose): the hint must reach the byte segment on either path
+	c.Run("decode-hint-symbols", func(r *fw.Rec) {
+		rng := r.Rng
+		for i := range csTable {
+			e := &csTable[i]
+			if e.Kind != 0 && e.Kind != 1 {
+				continue
+			}
+			for rep := 0; rep < 6; rep++ {
+				text := csRandomText(rng, e, 2+rng.Intn(10))
+				bs, ok := e.csEncode(text)
+				if !ok || len(bs) > 40 {
+					continue
+				}
+				hasHigh := false
+				for _, b := range bs {
+					hasHigh = hasHigh || b >= 0x80
+				}
+				if !hasHigh {
+					continue
+				}
+				v, l, mask := 3, qrAllLevels[rng.Intn(2)], rng.Intn(8)
+				data, ok := qrref.DataCodewordsFor(v, l, []qrref.Segment{{Mode: qrref.Byte, Data: bs, ECI: -1}})
+				if !ok {
+					continue
+				}
+				up := qrref.BuildMatrix(v, l, mask, data)
+				tr := make([][]bool, len(up))
+				for y := range tr {
+					tr[y] = make([]bool, len(up))
+					for x := range tr[y] {
+						tr[y][x] = up[x][y]
+					}
+				}
+				var hv interface{} = e.Name
+				if rng.Bool() {
+					hv = e.Enc
+				}
+				hints := map[gozxing.DecodeHintType]interface{}{gozxing.DecodeHintType_CHARACTER_SET: hv}
+				for oi, m := range [][][]bool{up, tr} {
+					orient := []string{"upright", "mirrored"}[oi]
+					res, err := qrdec.NewDecoder().Decode(boolsToBitMatrix(m), hints)
+					r.Evals(1)
+					info := map[string]interface{}{"charset": e.Name, "bytes": fmt.Sprintf("%x", bs), "orientation": orient, "hint_form": fmt.Sprintf("%T", hv)}
+					if err != nil {
+						r.Violation("model-mismatch", "qr.decoder:decode-hint-symbol-rejected:"+orient, fmt.Sprintf("%s symbol with an undesignated %s byte segment, CHARACTER_SET hint given: %v", orient, e.Name, err), info)
+						return
+					}
+					if res.GetText() != text {
+						r.Violation("model-mismatch", "qr.decoder:decode-hint-not-honoured:"+orient, fmt.Sprintf("%s symbol with the undesignated byte segment %x read under CHARACTER_SET=%s as %q, the character set gives %q", orient, bs, e.Name, res.GetText(), text), info)
+						return
+					}
+					r.Tally("decode_hint_honoured_symbol_" + orient)
+				}
+			}
+		}
+		r.Nontrivial("decode-hint-symbols")
+	})
+	c.Floor("decode_hint_honoured_symbol_mirrored", 60)
 	c.Floor("registry_values_checked", 20)
 	c.Floor("registry_table_entries_confirmed", int64(len(csTable)))
 	c.Floor("hinted_byte_mode_with_eci", 500)
@@ -709,6 +774,7 @@ func c15(c *fw.Ctx) {
 	c.Floor("decode_hint_honoured_adversarial_payloads", 400)
 	c.Floor("utf8_nohint_kind_7", 100)
 	c.Floor("utf8_nohint_kind_8", 100)
+	c.Floor("utf16be_ascii_only_texts", 50)
 	c.Floor("double_byte_codes_covered_Shift_JIS", 6000)
 	c.Floor("double_byte_codes_covered_Big5", 3000)
 	c.Floor("double_byte_codes_covered_GB18030", 5000)
